@@ -7,7 +7,7 @@ from spec import step_model as M
 
 PROPERTY = "C06"
 BOUNDS = {
-    "quick": "one step from every built pre-state: 0..1 registry node (id sym [10,99]; reboot, sleeping flags symbolic) with 0..1 child and 0..1 stored value (type sym [0,9]); metric symbolic; event node sym [10,99], child sym [10,99] or 255, all 5 commands (plus 'boundary' partitions with node ids from {0,255} and child ids from {0,254,255} for presentation/set/req/stream), internal types from {0,1,2,3,5,6,9,11,13,14,18,21,22,32}, stream sym [0,5]; version known (5 versions) and unknown (version reply / gateway presentation payload from a 7-text class list); time reply: day/hour/minute/second symbolic over (year,month) in {1970-01, 2000-02, 2024-02, 2038-01}",
+    "quick": "one step from every built pre-state: 0..1 registry node (id sym [10,99]; reboot, sleeping flags symbolic) with 0..1 child and 0..1 stored value (type sym [0,9]); metric symbolic; event node sym [10,99], child sym [10,99] or 255, all 5 commands (plus 'boundary' partitions with node ids from {0,255} and child ids from {0,254,255} for set/req/stream), internal types from {0,1,2,3,5,6,9,11,13,14,18,21,22,32}, stream sym [0,5]; version known (1.4, 2.0, 2.2; thorough: all 5) and unknown (version reply / gateway presentation payload from a 7-text class list); time reply: day/hour/minute/second symbolic over (year,month) in {1970-01, 2000-02, 2024-02, 2038-01}",
     "thorough": "as quick with ids sym [0,255], types sym [0,40], 0..2 nodes, 0..2 children",
 }
 REALISED = ["(year, month) of the clock stub are a grid (datetime.date realises them)", "version texts, battery/heartbeat texts are class lists"]
@@ -36,8 +36,11 @@ def partitions(tier):
                               budget=500 if q else 3000, cost=4))
 
     for v in VERSIONS:
+        if q and v not in ("1.4", "2.0", "2.2"):
+            parts.append({"name": "time-%s" % v, "fn": "sym_time", "version": v, "budget": 500, "cost": 3})
+            continue  # 1.5 / 2.1 only subclass their predecessor; C19 checks the equivalence, thorough runs them here too
         add("known-%s" % v, v, True)
-        for cmd in (0, 1, 2, 4):
+        for cmd in (1, 2, 4):
             parts.append({"name": "boundary-%s-cmd%d" % (v, cmd), "fn": "sym_step", "version": v, "known": True, "cmd": cmd, "sub": "", "maxnodes": 1, "maxch": 1,
                           "idset": [0, 255], "cidset": [0, 254], "cevset": [0, 254, 255], "idlo": 0, "idhi": 255, "tvhi": 9, "sym_reboot": cmd == 1, "budget": 500 if q else 2000, "cost": 3})
         parts.append({"name": "time-%s" % v, "fn": "sym_time", "version": v, "budget": 500 if q else 2000, "cost": 3})
